@@ -28,6 +28,12 @@ REPO_ASSUME = [
     "with a cancelled context only 'an error and no change' is demanded of mutations; reads may answer or refuse",
 ]
 
+HOOK_ASSUME = [
+    "single goroutine; the concurrent variant is not part of this run",
+    "the scheduler's reaction to a fire is modelled as one step: receive from the channel, GetNext, MarkAsDispatched(head)",
+    "time.Timer behaves like the three-field virtual clock (now, armed deadline, capacity-1 channel)",
+]
+
 CHECKS = {
     "C01": {
         "family": "repo", "level": "proof", "modules": ["Gk.Props.C01"],
@@ -64,13 +70,41 @@ CHECKS = {
     "C11": {
         "family": "repo", "level": "proof", "modules": ["Gk.Props.C11"],
         "components": ["find", "repo"],
-        "runs": repo_runs(REPO_SIZES),
+        "runs": lambda tier: (lambda n, ln: [
+            {"args": ["repo", "-impl", "mem", "-n", str(n), "-len", str(ln)]},
+            {"args": ["repo", "-impl", "mem", "-adversarial", "-findheavy", "-n", str(n), "-len", str(ln)]},
+            {"args": ["repo", "-impl", "ent", "-avoid", "like-case,json-path-key", "-n", str(n), "-len", str(ln)]},
+            {"args": ["repo", "-impl", "ent", "-adversarial", "-findheavy", "-avoid", "like-case,json-path-key",
+                      "-n", str(n), "-len", str(ln)]},
+        ])(*{"quick": (300, 40), "thorough": (6000, 60), "widen": (2000, 50)}[tier]),
         "rule": "Find with type-directed queries generated from the current contents (each matcher built from a stored "
                 "task's own value, then perturbed), offsets 0..2, limits {-1,1,2,5}; compared with Spec (DIFF find) and "
                 "with the declarative window over the implementation's own dump (Mon.c11)",
         "trusted_base": COMMON_TB + ["for ent the generated SQL is not modelled: ent is held to the specification only "
                                      "by this correspondence"],
         "assumptions": REPO_ASSUME,
+    },
+    "C07": {
+        "family": "hook", "level": "proof", "modules": ["Gk.Props.C07"],
+        "components": ["hook"],
+        "runs": lambda tier: {
+            "quick": [{"args": ["hook", "-n", "40000", "-len", "15"]},
+                      {"args": ["hook", "-n", "20000", "-len", "15", "-faults"], "seed_off": 100},
+                      {"args": ["hook", "-exhaustive", "4"]}],
+            "thorough": [{"args": ["hook", "-n", "1000000", "-len", "18"]},
+                         {"args": ["hook", "-n", "300000", "-len", "18", "-faults"], "seed_off": 100},
+                         {"args": ["hook", "-exhaustive", "6"]}],
+            "widen": [{"args": ["hook", "-n", "300000", "-len", "15", "-faults"]},
+                      {"args": ["hook", "-exhaustive", "5"]}],
+        }[tier],
+        "rule": "real repository.Repository + MutationHookTimer + in-memory repository with a virtual clock: random "
+                "histories of 6..len ops over 3 times x 3 priorities x <=4 tasks (sub-ms / non-UTC operands, GetNext "
+                "faults into re-arming) and every sequence 'start + depth ops' over a reduced 15-op alphabet; after "
+                "every op the virtual clock, NextScheduled, LastTimerUpdateError and the cached head are compared "
+                "with Gk.Obs and the never-late / stopped-silent / error-surfaces monitors run on the implementation's "
+                "own observables",
+        "trusted_base": COMMON_TB,
+        "assumptions": HOOK_ASSUME,
     },
     "C14": {
         "family": "repo", "level": "proof", "modules": ["Gk.Props.C14"],
